@@ -106,6 +106,8 @@ func lineKind(l string) string {
 		return "md"
 	case strings.HasPrefix(l, "io "):
 		return "io"
+	case strings.HasPrefix(l, "cli "):
+		return "cli"
 	}
 	return "other"
 }
